@@ -56,7 +56,7 @@ def run(pid, tier):
     mine = {"C03": ("bounds", "monotonic"), "C04": ("components", "wellformed", "panic")}[pid]
     invariants = {"C03": ["Bounds", "Monotonic"], "C04": ["LawHolds", "CleanTagUnchanged"]}[pid]
     if tier == "quick":
-        sfx, rs, big = (ALL_SUFFIXES if pid == "C03" else ["", "-base-prerelease-post-dev", "-context", "-base"]), ([1] if pid == "C03" else [1, 3]), False
+        sfx, rs, big = (ALL_SUFFIXES if pid == "C03" else ["", "-base-prerelease-post-dev", "-context", "-base"]), ([1] if pid == "C03" else [1, 3, 4]), False
     else:
         sfx, rs, big = ALL_SUFFIXES, [1, 2, 3, 4], True
     r = core.tlc("MC_Flow", cfg(sfx, rs, big, invariants), pid.lower() + "-mc", workers=12, timeout=14400)
